@@ -10,12 +10,12 @@ NCPU = os.cpu_count() or 4
 PROFILES = {
     "C13": dict(spec=dict(p_ig=0.15, p_args=0.35, p_generic=0.25, max_benches=14, p_time=0.1), cfg=dict(actions=["test", "test", "test", "bench", "terse", "list"], p_filters=0.95, p_ignore_flag=0.4, p_sort=0.2, p_timer_flag=0.3)),
     "C14": dict(spec=dict(p_ig=0.35, p_args=0.35, p_generic=0.2, max_benches=12, p_time=0.25, time_kinds=[0, 0, 0, 1, 2], p_coarse_counter=0.6), cfg=dict(actions=["list", "terse", "list_benches"], p_filters=0.5, p_ignore_flag=0.7, p_sort=0.2, p_timer_flag=0.4)),
-    "C15": dict(spec=dict(p_sc=0.5, p_ss=0.6, p_th=0.35, p_ig=0.25, p_ctr=0.35, p_time=0.25, time_multi=True, p_bcounter=0.25, p_group=0.7, max_benches=10, p_args=0.15, p_generic=0.15, p_coarse_counter=0.2, p_gen_cost=0.5, p_budget_scenario=0.12),
+    "C15": dict(spec=dict(p_sc=0.5, p_ss=0.6, p_th=0.35, p_ig=0.25, p_ctr=0.35, p_time=0.25, time_multi=True, p_bcounter=0.25, p_group=0.7, max_benches=10, p_args=0.15, p_generic=0.15, p_coarse_counter=0.2, p_gen_cost=0.5, p_budget_scenario=0.12, p_wide_counts=0.06),
                 cfg=dict(actions=["bench", "bench", "bench", "test", "list"], p_filters=0.1, p_ignore_flag=0.4, p_sort=0.1, p_runner_opts=0.7, time_opts=True, p_timer_flag=0.3, p_single_runner_opt=0.15,
                          decoys={"sc": [4, 6, 9], "ss": [5, 6], "th": [[1], [5], [2, 3]], "c0": [3], "c1": [3], "c2": [3], "c3": [3]})),
     "C16": dict(spec=dict(p_ig=0.05, p_args=0.4, p_generic=0.3, max_benches=18, min_benches=4), cfg=dict(actions=["test", "list", "test"], p_filters=0.15, p_ignore_flag=0.2, p_sort=0.9)),
     "C17": dict(spec=dict(p_ig=0.05, p_args=0.55, p_generic=0.35, max_benches=10, p_th=0.15), cfg=dict(actions=["test", "test", "bench"], p_filters=0.5, p_ignore_flag=0.3, p_sort=0.7)),
-    "C20": dict(spec=dict(p_sc=0.4, p_ss=0.7, p_th=0.3, p_ig=0.2, p_ctr=0.4, p_alloc=0.4, p_bcounter=0.2, max_benches=14, p_args=0.25, p_generic=0.2, p_nobench=0.05, p_inputcounter=0.08),
+    "C20": dict(spec=dict(p_sc=0.4, p_ss=0.7, p_th=0.3, p_ig=0.2, p_ctr=0.4, p_alloc=0.4, p_bcounter=0.2, max_benches=14, p_args=0.25, p_generic=0.2, p_nobench=0.05, p_inputcounter=0.08, p_free_calls=0.12),
                 cfg=dict(actions=["bench", "bench", "test", "list"], p_filters=0.3, p_ignore_flag=0.3, p_sort=0.4, p_runner_opts=0.3)),
 }
 
@@ -30,6 +30,8 @@ def bounded(sp, cfg):
         eff = TG.effective_options(c, it.runner_opts)
         n = eff.get("sc", TG.DEFAULT_SAMPLE_COUNT)
         T = max(TG.thread_counts(eff))
+        if n > 12 and eff.get("xt") == 1 and c.leaf.bench.beh.get("cost") == 1 and eff.get("ss", 1) <= 65536 and T == 1:
+            continue      # a 1 ns max_time ends the run after its first round
         if n > 12:
             return False
         if "ss" not in eff and c.leaf.bench.beh["cost"] < 30:
@@ -310,7 +312,7 @@ def check(prop, tier, seed, out):
     out.assumptions += ["benchmark bodies are synthetic (const-generic fn items reading a spec table); the macro expansion path is covered by the generated-crate checks (C12)",
                         "virtual TSC clock for the bench action; regex filters restricted to syntax on which Python re and regex-lite agree"]
     out.require("judged_runs", sum(v for k, v in agg.items() if k.startswith("action_")), 100)
-    if prop in ("C13", "C15", "C16", "C17"):
+    if prop in ("C13", "C15", "C16", "C17", "C20"):
         # the macro-expansion path: the same oracles on generated crates
         from . import cratecheck
         g = cratecheck.macro_slice(prop, tier, seed, out)
